@@ -57,14 +57,14 @@ func (w *world) rawCall(op Op) rawOut {
 
 		return rawOut{obs: Obs{Out: "false"}}
 	case "key":
-		kp, err := x.CreateKeyPair(w.tokenString(op.Tok), kms.ED25519Type)
+		kp, err := x.CreateKeyPair(w.tokenFor(op), kms.ED25519Type)
 		if err != nil {
 			return rawOut{obs: Obs{Out: classify(err), Err: errStr(err)}}
 		}
 
 		return rawOut{obs: Obs{Out: "key"}, kid: kp.KeyID}
 	case "get":
-		b, err := x.Get(w.tokenString(op.Tok), ctOf(op.C), w.idStr(op.C))
+		b, err := x.Get(w.tokenFor(op), ctOf(op.C), w.idStr(op.C))
 		if err != nil {
 			return rawOut{obs: Obs{Out: classify(err), Err: errStr(err)}}
 		}
